@@ -160,10 +160,19 @@ def t_attach_reader(eng):
     valid = [[(I, 'load'), (I, 'pulse')], [(I, 'load'), ('text', 'all')], [(I, 'load'), (I, 'pulse'), (I, 'tag')],
              [(I, 'load'), ('text', 'all'), (I, 'tag')]]
     lays = list(layouts(valid))
+    # `all` is a keyword of this option: the literal must be harmless in every position (it is meaningful in the second)
+    for v in ([(I, 'load'), (I, 'pulse')], [(I, 'load'), (I, 'pulse'), (I, 'tag')]):
+        for k in (0, 2):
+            if k < len(v):
+                kinds_ = list(v)
+                kinds_[k] = ('text', 'all')
+                lays.append(('keyword-all-in-field-%d-of-%d' % (k + 1, len(v)), kinds_, False))
+        kinds_ = [('text', 'all')] * len(v)
+        lays.append(('keyword-all-in-every-field-of-%d' % len(v), kinds_, False))
     lab, kinds, ok = lays[eng.choose(len(lays))]
     if kinds[1:2] == [('text', 'bad1')]:
         ok = False
-    lab = lab + ('-all' if any(k == ('text', 'all') for k in kinds) else '')
+    lab = lab + ('-all' if any(k == ('text', 'all') for k in kinds) and not lab.startswith('keyword') else '')
     fields = MS.field_variants(eng, kinds)
     x = eng.mk_fields(fields)
     loop = MS.loop_of(eng, 'args.attach_load')
